@@ -216,7 +216,10 @@ impl Layer {
             return;
         }
         if pos.y >= self.lines.len() as i32 {
-            self.lines.resize(pos.y as usize + 1, Line::create(self.size.width));
+            // the rows in between stay empty (as the rows a line feed opens do); only the row that is written gets
+            // its cells: a write far below the last row must not allocate every row down to it at full width
+            self.lines.resize(pos.y as usize, Line::default());
+            self.lines.push(Line::create(self.size.width));
         }
 
         if self.properties.has_alpha_channel && self.properties.is_alpha_channel_locked {
